@@ -185,10 +185,14 @@ class Sim(object):
                 pass
 
     def op_update_yourself(self, op):
-        o = Bag()
         attrs = {k: real_value(v) for k, v in op["attrs"]}
-        for k, v in attrs.items():
-            setattr(o, k, v)
+        if len(op["attrs"]) % 2:
+            # the other object carries its values as CLASS attributes (defaults declared on the class), not instance ones
+            o = type("Defaults", (object,), dict(attrs))()
+        else:
+            o = Bag()
+            for k, v in attrs.items():
+                setattr(o, k, v)
         self.real.update_yourself(o)
         for k in list(self.model):
             if k in attrs:
